@@ -297,6 +297,21 @@ def run(ck):
             cname = (call_name(cls_) or '').split('.')[-1] if isinstance(cls_, ast.Call) else u(recv).split('.')[-1]
             okp, why = AFTER_NAMING.get(cname, (False, 'not triaged: a step that can change a molecule after the molecule types were named'))
             ck.ob('SIB-edit-after-naming', cli.loc(c), okp, '{} runs after NameMolType: {}'.format(cname, why), key='SIB-edit-after-naming|' + cname)
+    # -resid input: the one ITP of a molecule type is printed from its first molecule, the coordinate file from every molecule -- the input numbers are put back
+    # on every molecule alike (no molecule skipped, whatever it shares with an earlier one)
+    restores = stmts_with_env(ent, lambda s_: isinstance(s_, ast.Expr) and isinstance(s_.value, ast.Call) and call_name(s_.value) in ('nx.set_node_attributes', 'networkx.set_node_attributes')
+                              and len(s_.value.args) >= 3 and try_fold(s_.value.args[2], default=None) == 'resid')
+    if restores:
+        okr = len(restores) == 1
+        if okr:
+            st_ = restores[0][0]
+            loop_ = cli.enclosing(st_, ast.For)
+            okr = loop_ is not None and u(loop_.iter) == 'system.molecules' and isinstance(loop_.target, ast.Name) and u(st_.value.args[0]) == loop_.target.id
+            if okr:
+                rel_ = stmts_with_env(ent, lambda s_: s_ is st_, stmts=loop_.body)
+                okr = len(rel_) == 1 and flow.valid(rel_[0][1]) and not any(isinstance(x, (ast.Break, ast.Continue, ast.Return)) for x in ast.walk(loop_))
+        ck.ob('SIB-resid-restore', cli.loc(restores[0][0]), okr, 'with -resid input the input residue numbers are put back on every molecule of the system, unconditionally inside '
+              'the loop over system.molecules (the ITP comes from the first molecule of a type, the coordinates from all)', key='SIB-resid-restore|every-molecule')
     ck.note('molecule-level meta keys printed by the ITP writer (define, pre/post_section_lines) are not compared by share_moltype_with (outside what C03 states)')
     shared.pure_writer(ck, pdb, pw, [pw.args.args[0].arg])
     shared.pure_writer(ck, itp, iw, [iw.args.args[0].arg])
@@ -304,6 +319,10 @@ def run(ck):
     shared.truthy_zero(ck, ['vermouth/molecule.py', 'vermouth/gmx/itp.py', 'vermouth/gmx/topology.py', 'vermouth/pdb/pdb.py', 'vermouth/processors/name_moltype.py',
                            'vermouth/processors/sort_molecule_atoms.py'])
     printed_copy_columns(ck, 'SIB-atom-order')
+    # the coordinate record shows the ITP's residue number only as long as an over-wide number is cut to its columns and does not shift the others (C16's rule on
+    # the formatter's spec parser, evaluated here too)
+    from .c16 import spec_parse_obligation
+    spec_parse_obligation(ck)
     shared.sorted_nodes_rule(ck, 'SIB-atom-order')
     shared.runs_every_molecule(ck, 'vermouth/processors/sort_molecule_atoms.py', 'SortMoleculeAtoms', 'MPT-every-molecule')
     # both output files are written from the same state of the system: every step that changes molecules comes before the first writer
